@@ -123,7 +123,7 @@ def splice_flop(rng, d, inst, on, dp, qp):
     return d
 
 
-def add_flops(rng, d, insts, extra_pins, dp="d", qp="q"):
+def add_flops(rng, d, insts, extra_pins, dp="d", qp="q", rp="rst", qnp="qn"):
     """splice one flop per instance name into the DAG; q buffers feed the loads of the chosen node, and often the cone of D"""
     for inst in insts:
         cand = [n[0] for n in d["nodes"] if "." not in n[0] and n[1] not in ("0", "1") and n[0] != "clk" and n[0] != "rst"]
@@ -150,13 +150,13 @@ def add_flops(rng, d, insts, extra_pins, dp="d", qp="q"):
             d["nodes"].append(["rst", "input", False, []])
         for b in d["bbs"]:
             inst = b[0]
-            d["nodes"].append([f"{inst}.rst", "bb_input", False, ["rst"]])
-            d["nodes"].append([f"{inst}.qn", "bb_output", False, []])
-            b[2] = sorted(b[2] + ["rst"]); b[3] = sorted(b[3] + ["qn"])
+            d["nodes"].append([f"{inst}.{rp}", "bb_input", False, ["rst"]])
+            d["nodes"].append([f"{inst}.{qnp}", "bb_output", False, []])
+            b[2] = sorted(b[2] + [rp]); b[3] = sorted(b[3] + [qnp])
     return d
 
 
-def gen_seq(rng, tier):
+def gen_seq(rng, tier, ports=None, ign_form=None):
     n_in = rng.randint(1, 2)
     d = base(rng, n_in, rng.randint(1, 5), p_const=0.08)
     k = rng.choice([1, 1, 2, 2, 3])
@@ -170,7 +170,12 @@ def gen_seq(rng, tier):
         insts = fam + (["ff2"] if rng.random() < 0.3 else [])
         rng.shuffle(insts)
         k = len(insts)
-    d = add_flops(rng, d, insts, extra, dp, qp)
+    # extra pin names that CONTAIN the one-letter D / Q port name (a str ignore_pins must not be read as a set of characters)
+    if ports:
+        dp, qp = ports
+        extra = True
+    rp, qnp = ("CDN", "QN") if dp == "D" else rng.choice([("sd", "qn"), ("sd", "nq")] if ports else [("rst", "qn"), ("sd", "nq")])
+    d = add_flops(rng, d, insts, extra, dp, qp, rp, qnp)
     kind = f"seq:flops={k}" + (":prefix-names" if insts[0][:2] != "ff" or k > 1 and insts[1][:2] != "ff" else "")
     if rng.random() < 0.15:
         # a flop whose Q drives nothing
@@ -181,14 +186,31 @@ def gen_seq(rng, tier):
             if not any(n[2] for n in d["nodes"]):
                 [n for n in d["nodes"] if n[1] in lib.GATES][-1][2] = True
             kind += ":unloaded-q"
-    ign = rng.choice([None, "clk", ["clk"], ["clk", "rst"], "rst", ["qn"]] if extra else [None, "clk", ["clk"]])
+    ign = rng.choice([None, "clk", ["clk"], ["clk", rp], rp, [qnp], qnp, [rp, qnp]] if extra else [None, "clk", ["clk"]])
+    if ign_form:
+        ign = {"str-r": rp, "str-qn": qnp, "list": [rp, qnp], "none": None}[ign_form]
+    gated = False
+    if rng.random() < 0.22:
+        # C09-F4: an ordinary net that carries the name <inst>_clk (a gated clock that is also observed); with `clk` ignored it must
+        # survive, without it the flattened pin name clashes and the call is rejected
+        inst = rng.choice(d["bbs"])[0]
+        en = rng.choice([n[0] for n in d["nodes"] if n[1] == "input" and n[0] not in ("clk", "rst")])
+        d["nodes"].append([f"{inst}_clk", "and", True, sorted(["clk", en])])
+        for nd in d["nodes"]:
+            if nd[0] == f"{inst}.clk":
+                nd[3] = [f"{inst}_clk"]
+        gated = True
+        kind += ":net-named-as-pin"
+        if rng.random() < 0.8:
+            ign = rng.choice(["clk", ["clk"], ["clk", rp] if extra else ["clk"]])
+    kind += ":ign=" + ("none" if not ign else "str" if isinstance(ign, str) else "list")
     iv = rng.choice([None, "0", "1", "dict", "dict", "x"])
     if iv == "dict":
         insts_ = [b[0] for b in d["bbs"]]
         iv = {b: rng.choice(["0", "1", "1", "0", "x"]) for b in rng.sample(insts_, rng.randint(1, len(insts_)))}
     ru = rng.random() < 0.6 or "prefix-names" in kind
     # clk / rst only drive flop pins: with remove_unloaded they do not become per-step inputs
-    ins = [n[0] for n in d["nodes"] if n[1] == "input" and not (ru and n[0] in ("clk", "rst"))]
+    ins = [n[0] for n in d["nodes"] if n[1] == "input" and not (ru and (n[0] == "rst" or n[0] == "clk" and not gated))]
     hi = 3 if tier == "quick" else 4
     ns = [n for n in range(1, hi + 1) if k + n * len(ins) <= MAX_FREE[tier]]
     if "prefix-names" in kind and [n for n in ns if n >= 2]:
@@ -198,6 +220,48 @@ def gen_seq(rng, tier):
     once = tier == "quick" and rng.random() < 0.6       # quick tier: the second call on 40 % of the circuits (every call is dump-guarded)
     return {"fn": "sequential_unroll", "circuit": lib.shuffle_nodes(rng, d), "n": n, "n2": n2, "d": dp, "q": qp, "ign": ign,
             "afo": rng.random() < 0.5, "iv": iv, "ru": ru, "prefix": "cg_unroll", "kind": kind, "once": once}
+
+
+def gen_seq_str_ign(rng, tier):
+    """ignore_pins as a plain multi-letter str that CONTAINS the one-letter D / Q port name (CDN / QN with ports D / Q, sd / nq or
+    qn with ports d / q), next to the list and None forms on the same kind of circuit"""
+    out = []
+    for ports, form in ((("D", "Q"), "str-r"), (("D", "Q"), "str-qn"), (("d", "q"), "str-qn"), (("d", "q"), "str-r"),
+                        (("D", "Q"), "list"), (("d", "q"), "none")):
+        c = gen_seq(rng, tier, ports, form)
+        c["kind"] += ":one-letter-port-in-str" if form.startswith("str") else ""
+        out.append(c)
+    return out
+
+
+def bare_flop(d, inst, on):
+    """a flop whose Q pin drives nothing: pins only, no q buffer"""
+    if "clk" not in [n[0] for n in d["nodes"]]:
+        d["nodes"].append(["clk", "input", False, []])
+    d["nodes"] += [[f"{inst}.d", "bb_input", False, [on]], [f"{inst}.clk", "bb_input", False, ["clk"]], [f"{inst}.q", "bb_output", False, []]]
+    d["bbs"] = d.get("bbs", []) + [[inst, "ff", ["clk", "d"], ["q"]]]
+
+
+def gen_seq_unloaded_q(rng, tier):
+    """remove_unloaded=True on flops whose Q drives nothing, next to several other unloaded inputs (clk, rst, spare inputs): the sweep
+    visits the inputs in set order, so the Q nodes must survive whatever comes before them (several names = several orders per hash seed)"""
+    out = []
+    for insts in (["ff0"], ["cap_0", "u1"], ["acc", "acc_HI"], ["r"], ["zz", "q_B", "m"]):
+        d = base(rng, rng.randint(1, 2), rng.randint(1, 3), p_const=0.0)
+        u = rng.randint(1, len(insts))
+        for inst in insts[:u]:
+            bare_flop(d, inst, rng.choice([n[0] for n in d["nodes"] if "." not in n[0] and n[0] != "clk"]))
+        d = add_flops(rng, d, insts[u:], rng.random() < 0.5)
+        for j in range(rng.randint(0, 2)):
+            d["nodes"].append([f"spare{j}", "input", False, []])
+        if not any(nd[2] for nd in d["nodes"]):
+            [nd for nd in d["nodes"] if nd[1] in lib.GATES][-1][2] = True
+        k = len(insts)
+        ins = [nd[0] for nd in d["nodes"] if nd[1] == "input"]
+        out.append({"fn": "sequential_unroll", "circuit": lib.shuffle_nodes(rng, d), "n": 2 if k + 2 * len(ins) <= MAX_FREE[tier] else 1, "n2": 1,
+                    "d": "d", "q": "q", "ign": rng.choice([None, "clk"]), "afo": rng.random() < 0.5, "iv": rng.choice([None, "0"]), "ru": True,
+                    "prefix": "cg_unroll", "kind": "seq-unloaded-q", "once": True})
+    return out
 
 
 def worst_case_n(c0, tier):
@@ -252,6 +316,8 @@ def generate(rng, tier):
     for _ in range(nf):
         out += gen_seq_flags(rng, tier)
         out += gen_seq_dict_orders(rng, tier)
+        out += gen_seq_unloaded_q(rng, tier)
+        out += gen_seq_str_ign(rng, tier)
     return out
 
 
